@@ -2,13 +2,18 @@
 
 Proof   : coq/C18/Props_C18.v over coq/C18/Json.v (ECMA-404 parser on UTF-16 code units, QuoteJSONString,
           SerializeJSONProperty/Object/Array, duplicate keys, own-key order).
-Tie     : the model extracted with ExtrOcamlBasic (ocaml/C18/c18model) and the engine (harness `jsonops`) run on the
+Tie     : the model extracted with ExtrOcamlBasic (ocaml/C18/_build/c18model, built by ocaml/C18/build.sh) and the engine (harness `jsonops`) run on the
           same generated texts / values; accept-reject, the structural dump of the parsed value and the exact
           stringify text are diffed.  Number tokens are converted to binary64 by Python's float() (correctly rounded).
 Search  : on the implementation alone -- parse vs Python's json module (strict, constants refused) with JS object
           semantics re-implemented in Python; parse(stringify(v)) vs the dump of v; stringify text re-read by Python json.
 Extra   : replacer function / replacer array / toJSON / reviver programs, expected result computed in Python from the
           model's text, node (V8) consulted only to withhold an alarm.
+Classes : a text the model/oracle accepts and the engine rejects with SyntaxError is labelled by predicates over the text itself
+          (parse-raw-lone-surrogate, parse-escaped-lone-surrogate, parse-number-overflow, parse-number-near-max -- the last two through a
+          transcription of serde_json's number conversion --, parse-nesting-depth-128) and only if the text with every such occurrence
+          neutralised agrees again; everything else stays unclassified.  known_findings.json suppresses exactly listed classes; a
+          suppressed case still gets a replay file (replay/C18_known-<class>_<seed>_<n>.json).
 """
 import json
 import os
@@ -38,10 +43,13 @@ TRUSTED = [
     "data-property attributes), values built through CreateDataProperty / JsArray::push, catch_unwind, 256 MB worker stack",
     "search oracles: Python 3 json module (strict, NaN/Infinity refused) + Python re-implementation of object key semantics",
     "node 20 (V8): only to withhold an alarm (model_defect / python_reference_defect counted in the evidence)",
+    "class labels: Python transcription of serde_json 1.0.151 number conversion (serde_number_out_of_range) + surrogate / depth predicates; "
+    "a label is given only when the neutralised text agrees again, so a wrong predicate shows up as an unclassified violation",
     "modelled, not verified: serde_json (pre-validation), boa's lexer/parser/compiler/VM run by JSON.parse, ryu-js (Number::toString)",
 ]
 
-MODEL_BIN = os.path.join(vlib.OCAML, "C18", "c18model")
+MODEL_DIR = os.path.join(vlib.OCAML, "C18", "_build")      # git-ignored: extracted json_model.ml{,i}, objects, c18model
+MODEL_BIN = os.path.join(MODEL_DIR, "c18model")
 STACK_MB = "256"
 
 
@@ -71,14 +79,27 @@ def show(units, limit=160):
     return s if len(s) <= limit else s[:limit] + "...(%d units)" % len(units)
 
 
-def run_lines(cmd, lines, env=None, timeout=1800):
+def _big_stack():
+    """the extracted model is plain structural recursion (app, map on lists of a million units): give it the largest stack allowed"""
+    import resource
+    soft, hard = resource.getrlimit(resource.RLIMIT_STACK)
+    want = 4 << 30
+    if hard != resource.RLIM_INFINITY:
+        want = min(want, hard)
+    try:
+        resource.setrlimit(resource.RLIMIT_STACK, (want, hard))
+    except (ValueError, OSError):
+        pass
+
+
+def run_lines(cmd, lines, env=None, timeout=1800, big_stack=False):
     """Feed lines, return the list of result lines (shorter than `lines` when the process died)."""
     e = dict(os.environ)
     if env:
         e.update(env)
     try:
         p = subprocess.run(cmd, input=("\n".join(lines) + "\n").encode("utf8"), stdout=subprocess.PIPE, stderr=subprocess.PIPE,
-                           env=e, timeout=timeout)
+                           env=e, timeout=timeout, preexec_fn=_big_stack if big_stack else None)
         out = p.stdout.decode("utf8", "replace").split("\n")
         if out and out[-1] == "":
             out.pop()
@@ -92,7 +113,7 @@ def run_lines(cmd, lines, env=None, timeout=1800):
         return out, 124, "timeout"
 
 
-def run_batch(cmd, lines, env=None, chunk=None, crash_marker="crash"):
+def run_batch(cmd, lines, env=None, chunk=None, crash_marker="crash", big_stack=False):
     """Run all lines, in parallel chunks; a case that kills the process gets `crash <detail>` and the rest of its
     chunk is re-run."""
     if not lines:
@@ -106,7 +127,7 @@ def run_batch(cmd, lines, env=None, chunk=None, crash_marker="crash"):
         res = []
         pos = a
         while pos < b:
-            out, rc, err = run_lines(cmd, lines[pos:b], env)
+            out, rc, err = run_lines(cmd, lines[pos:b], env, big_stack=big_stack)
             res += out[:b - pos]
             pos += len(out)
             if pos < b:
@@ -124,7 +145,7 @@ class Tools:
         self.harness = harness
 
     def model(self, lines):
-        return run_batch([MODEL_BIN], lines, crash_marker="model-crash")
+        return run_batch([MODEL_BIN], lines, crash_marker="model-crash", big_stack=True)
 
     def impl(self, lines, stack_mb=STACK_MB):
         return run_batch([self.harness], lines, env={"JSONOPS_STACK_MB": stack_mb})
@@ -167,7 +188,84 @@ def canon_impl(line):
 # known-finding classes: predicates over the failing case itself + neutralisation (the classes present are
 # removed from the text; the finding is attributed to them only if model and engine agree on the neutralised text)
 
-NUM_RE = re.compile(r"^-?(0|[1-9][0-9]*)(\.[0-9]+)?([eE][+-]?[0-9]+)?$")
+NUM_RE = re.compile(r"^(-?)(0|[1-9][0-9]*)(?:\.([0-9]+))?(?:[eE]([+-]?)([0-9]+))?$")
+U64_MAX = (1 << 64) - 1
+I32_MAX = (1 << 31) - 1
+I32_MIN = -(1 << 31)
+
+
+def serde_number_out_of_range(tok):
+    """Transcription of serde_json 1.0.151 src/de.rs (feature float_roundtrip off, as boa builds it): parse_integer /
+    parse_long_integer / parse_decimal / parse_decimal_overflow / parse_exponent / parse_exponent_overflow / f64_from_parts.
+    True when `serde_json::from_str::<Value>` answers NumberOutOfRange for this (grammatical) number token.  The conversion is
+    u64 significand (digits beyond u64 dropped) times/divided by a table power of ten in binary64 -- not correctly rounded -- and
+    an infinite product is an error.  Python floats are binary64 with correctly rounded * and /, int->float is correctly rounded,
+    and float("1eN") is the correctly rounded literal, as in Rust."""
+    m = NUM_RE.match(tok)
+    if not m:
+        return False
+    _, ip, fp, esign, edigits = m.groups()
+
+    def overflow(a, d):
+        return a >= U64_MAX // 10 and (a > U64_MAX // 10 or d > U64_MAX % 10)
+
+    sig = 0
+    exponent = 0                    # exponent_before_decimal_point
+    is_float = False
+    # parse_integer
+    if ip != "0":
+        sig = int(ip[0])
+        for i in range(1, len(ip)):
+            d = int(ip[i])
+            if overflow(sig, d):
+                exponent = len(ip) - i           # parse_long_integer: this digit and the following ones are only counted
+                is_float = True
+                break
+            sig = sig * 10 + d
+    if fp is None and edigits is None:
+        if not is_float:
+            return False                          # U64 / I64 / -(u64 as f64): never an error
+        return f64_from_parts_oor(sig, exponent)
+    # parse_decimal
+    if fp is not None:
+        after = 0
+        for ch in fp:
+            d = int(ch)
+            if overflow(sig, d):
+                break                             # parse_decimal_overflow: further digits ignored
+            sig = sig * 10 + d
+            after -= 1
+        exponent += after
+    if edigits is None:
+        return f64_from_parts_oor(sig, exponent)
+    # parse_exponent
+    positive_exp = esign != "-"
+    exp = int(edigits[0])
+    for ch in edigits[1:]:
+        d = int(ch)
+        if exp > I32_MAX // 10 or (exp == I32_MAX // 10 and d > I32_MAX % 10):       # overflow!(exp * 10 + digit, i32::MAX)
+            return sig != 0 and positive_exp      # parse_exponent_overflow
+        exp = exp * 10 + d
+    final = max(I32_MIN, min(I32_MAX, exponent + exp if positive_exp else exponent - exp))
+    return f64_from_parts_oor(sig, final)
+
+
+def f64_from_parts_oor(sig, exponent):
+    f = float(sig)
+    while True:
+        idx = abs(exponent) if exponent != I32_MIN else None      # wrapping_abs of i32::MIN stays negative -> table miss
+        if idx is not None and idx <= 308:
+            if exponent >= 0:
+                f = f * float("1e%d" % idx)
+                if f == float("inf"):
+                    return True
+            return False
+        if f == 0.0:
+            return False
+        if exponent >= 0:
+            return True
+        f = f / 1e308
+        exponent += 308
 
 
 def string_items(units, a, b):
@@ -234,15 +332,15 @@ def known_classes(units):
                 k += 1
         else:
             s = "".join(chr(c) if c < 0x80 else "?" for c in units[a:b])
-            if NUM_RE.match(s):
+            if NUM_RE.match(s) and serde_number_out_of_range(s):
+                edits.append((a, b - a, [0x31]))
                 try:
-                    x = float(s)
+                    inf = float(s) in (float("inf"), float("-inf"))
                 except ValueError:
-                    continue
-                if x in (float("inf"), float("-inf")):
-                    edits.append((a, b - a, [0x31]))
-                    if "parse-number-overflow" not in classes:
-                        classes.append("parse-number-overflow")
+                    inf = True
+                cls = "parse-number-overflow" if inf else "parse-number-near-max"
+                if cls not in classes:
+                    classes.append(cls)
     if any(r[2] != [0x31] for r in edits):
         classes.append("parse-escaped-lone-surrogate")
     for pos, ln, rep in sorted(edits, reverse=True):
@@ -313,6 +411,10 @@ def parse_stream(run, tools, cases, label, dist):
         got = canon_impl(i)
         c["model"] = exp
         c["impl"] = got
+        if exp.startswith("model:"):
+            # the model driver could not answer (stack overflow / crash on a huge text): discarded and counted, never compared
+            dist["parse:model-discarded"] = dist.get("parse:model-discarded", 0) + 1
+            continue
         acc = "accept" if exp.startswith("ok") else "reject"
         dist["%s:%s:%s" % (label, c["kind"], acc)] = dist.get("%s:%s:%s" % (label, c["kind"], acc), 0) + 1
         for t in c.get("tags", []):
@@ -378,7 +480,7 @@ def violation_of_parse(c, kind="correspondence-broken"):
         "obligation": "JSON.parse(text) = Json.v parse_json text (accept/reject and value, keys in own-key order)",
         "model_output": c["model"][:2000], "impl_output": c["impl"][:2000], "v8_output": c.get("v8"),
         "neutralised": c.get("neutralised"), "source_kind": c.get("kind"), "tags": c.get("tags"),
-        "how_to_rerun": "printf 'parse %s\\n' | JSONOPS_STACK_MB=256 harness/target/debug/jsonops ; printf 'parse U%s\\n' | ocaml/C18/c18model"
+        "how_to_rerun": "printf 'parse %s\\n' | JSONOPS_STACK_MB=256 harness/target/debug/jsonops ; printf 'parse U%s\\n' | ocaml/C18/_build/c18model"
                         % (esc(c["units"])[:4000].replace("%", "%%").replace("'", "'\\''"), hx(c["units"])[:16000]),
     }
 
@@ -420,6 +522,11 @@ def stringify_stream(run, tools, cases, dist, stats):
         c["model"] = m.rstrip()
         c["impl"] = canon_impl(i)
         c["iline"], c["mline"] = il, ml
+        if c["model"].startswith("model-") or c["model"].startswith("badinput"):
+            # the model driver could not answer (stack overflow / crash on a huge text): discarded and counted, never compared
+            dist["stringify:model-discarded"] = dist.get("stringify:model-discarded", 0) + 1
+            stats["model_discarded"] = stats.get("model_discarded", 0) + 1
+            continue
         for t in c["tags"]:
             dist["tag:" + t] = dist.get("tag:" + t, 0) + 1
         dist["stringify:" + ("undef" if c["model"] == "undef" else "text")] = dist.get("stringify:" + ("undef" if c["model"] == "undef" else "text"), 0) + 1
@@ -439,7 +546,7 @@ def violation_of_stringify(c):
         "input": {"cmd": "stringify", "harness_line": c["iline"][:6000], "model_line": c["mline"][:6000]},
         "obligation": "JSON.stringify(value, undefined, space) text = Json.v serialize (gap_of_space space) (js_build value), code unit for code unit",
         "model_output": text(c["model"]), "impl_output": text(c["impl"]), "tags": c["tags"],
-        "how_to_rerun": "printf '%s\\n' | harness/target/debug/jsonops ; printf '%s\\n' | ocaml/C18/c18model" % (c["iline"][:3000], c["mline"][:3000]),
+        "how_to_rerun": "printf '%s\\n' | harness/target/debug/jsonops ; printf '%s\\n' | ocaml/C18/_build/c18model" % (c["iline"][:3000], c["mline"][:3000]),
     }
 
 
@@ -464,16 +571,19 @@ def py_refuse_constant(_):
 
 
 def py_object(pairs):
+    """JS object semantics over the member list Python's json hands over.  Keys are compared as UTF-16 code-unit sequences
+    (Python joins an escaped surrogate pair into one astral character but leaves a raw pair as two: both are the same JS key)."""
     d = {}
     for k, v in pairs:
-        d[k] = v       # assignment to an existing key keeps its position: CreateDataProperty
+        d[tuple(T.u(k))] = v       # assignment to an existing key keeps its position: CreateDataProperty
     idx, rest = [], []
     for k in d:
-        if (k == "0" or (k.isascii() and k.isdigit() and k[0] != "0")) and len(k) <= 10 and int(k) < 4294967295:
+        s = "".join(chr(c) for c in k)
+        if (s == "0" or (s.isascii() and s.isdigit() and s[0] != "0")) and len(s) <= 10 and int(s) < 4294967295:
             idx.append(k)
         else:
             rest.append(k)
-    idx.sort(key=int)
+    idx.sort(key=lambda k: int("".join(chr(c) for c in k)))
     return ("O", [(k, d[k]) for k in idx + rest])
 
 
@@ -496,7 +606,7 @@ def py_dump(v, out):
     else:
         out.append("{")
         for k, e in v[1]:
-            out.append("K" + hx(T.u(k)))
+            out.append("K" + hx(k))
             py_dump(e, out)
         out.append("}")
 
@@ -600,12 +710,25 @@ def search_roundtrip(run, tools, n, maxdepth, stats, dist):
 
 # ----------------------------------------------------------------------------------------------
 
+def report(run, v, found_input=True):
+    """run.violation, plus a replay file for a case that is suppressed as a known finding (one per class and run), so that every
+    KNOWN-FINDING line of a run can be reproduced from a file as well"""
+    if vlib.match_known(PROP, v) is not None:
+        seen = getattr(run, "_c18_known_replays", None)
+        if seen is None:
+            seen = run._c18_known_replays = {}
+        if v["class"] not in seen:
+            seen[v["class"]] = run.replay_file(v, tag="known-" + v["class"])
+            run.notes.append({"known_finding_replay": {"class": v["class"], "file": seen[v["class"]]}})
+    return run.violation(v, found_input)
+
+
 def build_model():
-    ml = os.path.join(vlib.OCAML, "C18", "json_model.ml")
+    ml = os.path.join(MODEL_DIR, "json_model.ml")
     if not os.path.exists(ml):
-        return False, "extraction output ocaml/C18/json_model.ml missing"
-    need = (not os.path.exists(MODEL_BIN)) or any(
-        os.path.getmtime(os.path.join(vlib.OCAML, "C18", f)) > os.path.getmtime(MODEL_BIN) for f in ("json_model.ml", "driver.ml", "build.sh"))
+        return False, "extraction output ocaml/C18/_build/json_model.ml missing"
+    srcs = [ml, os.path.join(vlib.OCAML, "C18", "driver.ml"), os.path.join(vlib.OCAML, "C18", "build.sh")]
+    need = (not os.path.exists(MODEL_BIN)) or any(os.path.getmtime(f) > os.path.getmtime(MODEL_BIN) for f in srcs)
     if need:
         with vlib.Lock("ocaml-c18"):
             rc, out, err = vlib.sh(["sh", os.path.join(vlib.OCAML, "C18", "build.sh")], timeout=600)
@@ -630,6 +753,7 @@ def load_corpus():
 
 
 def main():
+    sys.setrecursionlimit(max(sys.getrecursionlimit(), 50000))      # the nesting probes (2000 levels) are walked recursively
     run = Run(PROP, "proof")
     quick = run.quick
     run.cov["rule"] = (
@@ -642,7 +766,8 @@ def main():
     dist, stats = {}, {}
     broken = None
     # the extraction target must be rebuilt when its output vanished
-    if not os.path.exists(os.path.join(vlib.OCAML, "C18", "json_model.ml")):
+    os.makedirs(MODEL_DIR, exist_ok=True)
+    if not os.path.exists(os.path.join(MODEL_DIR, "json_model.ml")):
         for ext in (".vo", ".vos", ".vok", ".glob"):
             try:
                 os.remove(os.path.join(vlib.COQ, "C18", "Extract_C18" + ext))
@@ -690,7 +815,6 @@ def main():
     for d in depths:
         for shape in (["array", "object", "mixed"] if quick else ["array", "object", "mixed", "array-ws", "siblings"]):
             parse_cases.append(T.deep_case(run.rng, d, shape))
-    run.cov["programs"] = 0
 
     # ---- stringify side
     value_cases = gen_value_cases(run, 500 if quick else 5000, maxdepth, dist)
@@ -704,11 +828,12 @@ def main():
         for k in range(d):
             t = ("A", [t]) if k % 2 == 0 else ("O", [(T.u("k"), t)])
         value_cases.append({"tree": t, "hspace": "-", "mspace": "-", "spacetag": "space-none", "tags": ["vdeep-%d" % d]})
-        value_cases.append({"tree": t, "hspace": "n%016x" % V.bits_of(1.0), "mspace": "n1", "spacetag": "space-num", "tags": ["vdeep-%d" % d]})
+        if d <= 1000:     # with a gap the text grows quadratically (4 M units at 2000 levels): minutes on both sides, no new information
+            value_cases.append({"tree": t, "hspace": "n%016x" % V.bits_of(1.0), "mspace": "n1", "spacetag": "space-num", "tags": ["vdeep-%d" % d]})
 
     if have_model:
         smism, texts = stringify_stream(run, tools, value_cases, dist, stats)
-        for c in smism[:8]:
+        for c in sorted(smism, key=lambda c: len(c["iline"]))[:4]:      # the shortest disagreeing cases are the replays
             violations.append(violation_of_stringify(c))
         stats["stringify_mismatches"] = len(smism)
         # every produced text goes through the parse correspondence as well (= round trip on the engine, value given by the model)
@@ -716,7 +841,7 @@ def main():
         pm = parse_stream(run, tools, parse_cases, "parse", dist)
         tri = triage_parse(run, tools, pm, stats)
         seen_cls = {}
-        for c in tri:
+        for c in sorted(tri, key=lambda c: len(c["units"])):      # the shortest text of a class is its replay
             key = c.get("class") or ("unclassified-%d" % len(seen_cls))
             if key in seen_cls and c.get("class") is not None:
                 seen_cls[key]["count"] += 1
@@ -737,6 +862,7 @@ def main():
     if have_model:
         pv = P.run_programs(run, tools, 150 if quick else 1200, dist, stats, node_eval)
         violations += pv
+        run.cov["programs"] = sum(v for k, v in dist.items() if k.startswith("prog:"))
     stats["programs_wall_s"] = round(time.time() - t_prog, 1)
 
     # ---- search on the implementation alone; enlarged when something above broke
@@ -754,7 +880,7 @@ def main():
         cls = None
         if c.get("text") is not None and c["impl"].startswith("err SyntaxError"):
             kc, _ = known_classes(c["text"])
-            kc = [k for k in kc if k in ("parse-escaped-lone-surrogate", "parse-nesting-depth-128")]
+            kc = [k for k in kc if k in ("parse-escaped-lone-surrogate", "parse-nesting-depth-128", "parse-number-near-max")]
             if kc:
                 cls = kc[0]
         c["class"] = cls
@@ -768,6 +894,8 @@ def main():
 
     # ---- verdicts
     reported = set()
+    found.sort(key=lambda c: len(c["units"]))
+    found_rt.sort(key=lambda c: len(c.get("iline", "")))
     for c in found:
         key = c.get("class") or id(c)
         if key in reported:
@@ -775,16 +903,16 @@ def main():
         reported.add(key)
         v = violation_of_parse(c, kind="counterexample")
         v["obligation"] = "JSON.parse(text) agrees with an independent ECMA-404 parser (Python json, strict) + JS object semantics"
-        run.violation(v)
+        report(run, v)
     for c in found_rt:
         key = ("rt", c.get("class") or id(c))
         if key in reported:
             continue
         reported.add(key)
-        run.violation({"kind": "counterexample", "class": c.get("class"), "input": {"cmd": "roundtrip", "harness_line": c["iline"][:6000]},
-                       "obligation": c.get("why"), "model_output": c["model"][:1500], "impl_output": c["impl"][:1500],
-                       "text": show(c["text"], 600) if c.get("text") is not None else None,
-                       "how_to_rerun": "printf '%s\\n' | harness/target/debug/jsonops" % c["iline"][:3000]})
+        report(run, {"kind": "counterexample", "class": c.get("class"), "input": {"cmd": "roundtrip", "harness_line": c["iline"][:6000]},
+                     "obligation": c.get("why"), "model_output": c["model"][:1500], "impl_output": c["impl"][:1500],
+                     "text": show(c["text"], 600) if c.get("text") is not None else None,
+                     "how_to_rerun": "printf '%s\\n' | harness/target/debug/jsonops" % c["iline"][:3000]})
     have_input = bool(found or found_rt)
     for v in violations:
         # a model/engine disagreement is a concrete input; for parse cases the independent oracle (Python json) decides whether it is
@@ -795,12 +923,15 @@ def main():
             concrete = py is not None and py != v["impl_output"]
         else:
             concrete = True
-        run.violation(v, found_input=concrete or have_input)
-    if broken is not None and not violations and not have_input:
+        report(run, v, found_input=concrete or have_input)
+    if broken is not None:
+        # a broken proof obligation is always reported; the replay names the theorem file and the first error.  Cases that are
+        # suppressed as known findings do not count as "the failing input" of a newly broken proof.
+        concrete = len(run.violations) > 0
         run.violation({"kind": "proof-broken", "obligation": "C18/Props_C18.v", "detail": broken,
-                       "search": "enlarged implementation-side search (Python-json oracle, round trips) found no failing input"}, found_input=False)
-    elif broken is not None:
-        run.notes.append({"proof_broken": broken})
+                       "search": ("the enlarged search reported the other violation(s) of this run" if concrete else
+                                  "enlarged implementation-side search (Python-json oracle, round trips) found no failing input outside the known classes")},
+                      found_input=concrete)
     run.cov["distribution"] = dict(sorted(dist.items()))
     run.cov["stats"] = stats
     for c in parse_cases[:0]:
